@@ -660,6 +660,14 @@ class Executor:
           hit=True; v=st1.heap[(o.id,e.func.attr+'()')]; yield st1,(s.freeze(v,st1) if s.spec else v)
         else: break
       if hit: return
+    pm=getattr(getattr(s,'contract',None),'pure_methods',None)
+    if pm and isinstance(e.func,ast.Attribute) and e.func.attr in pm and not s.spec:
+      # a method the contract declares pure (assumption, listed in the evidence): a total, deterministic function of the receiver and the
+      # arguments - the same uninterpreted function as the spec function of that name
+      for st1,vals in s.evs([e.func.value]+list(e.args),st):
+        if isinstance(vals,Exc): yield st1,vals; continue
+        yield st1,SPEC_FUNS[e.func.attr](s,vals,st1)
+      return
     om=getattr(getattr(s,'contract',None),'opaque_methods',None)
     if om and isinstance(e.func,ast.Attribute) and e.func.attr in om and not s.spec:
       # a method the contract declares opaque (assumption, listed in the evidence): pure, does not raise, returns a value of the stated spec type
@@ -853,9 +861,15 @@ class Executor:
       # evaluate constructor arguments for typing only (DESIGN 3.1), keep the class
       for st1,f in s.ev(e.func,st):
         if isinstance(f,Exc): yield st1,('raise',f); continue
-        for st2,vals in s.evs(list(e.args),st1):
+        if not isinstance(f,Cls): raise Unsupported("raise of non-class")
+        try:
+          outs=list(s.evs(list(e.args),st1))
+        except Unsupported:
+          # the message is built with constructs outside the subset (string joins over collections ...): the exception class is what
+          # the contracts speak about; that building the message itself does not fail is an assumption of every such contract
+          outs=[(st1,[])]
+        for st2,vals in outs:
           if isinstance(vals,Exc): yield st2,('raise',vals); continue
-          if not isinstance(f,Cls): raise Unsupported("raise of non-class")
           yield st2,('raise',Exc(f.name,f"line {n.lineno}"))
       return
     for st1,f in s.ev(e,st):
@@ -1103,6 +1117,12 @@ class Executor:
       if v is None: continue
       if isinstance(v,B): st.env[nm]=B(st.fresh_bool(nm))
       elif isinstance(v,I): st.env[nm]=I(st.fresh_int(nm))
+      elif isinstance(v,Opq) and z3.is_expr(v.t):      # an opaque object reference: any object of that kind
+        st.env[nm]=Opq(z3.Const(f"{nm}@loop!{st.nextid[0]}",v.t.sort()),v.kind); st.nextid[0]+=1
+      elif isinstance(v,Ref) and v.cls in('setlist',) and (v.id,'arr') in st.heap:
+        # a local re-bound to a fresh abstracted list in the body: any such list
+        from . import symcoll
+        st.env[nm]=symcoll.new_setlist(st,z3.Const(f"{nm}@loop!{st.nextid[0]}",symcoll.SetSort),st.heap.get((v.id,'elem'))); st.nextid[0]+=1
       else: raise Unsupported(f"loop modifies local {nm} of non-scalar type {v!r}")
 
   def inv_vc(s,kind,n,spec,st,entry):
@@ -1451,9 +1471,19 @@ def _bi_tuple(s,args,kw,st):
   if it is None: raise Unsupported("tuple() of symbolic collection")
   yield st,Tup(it)
 
+def _bi_defaultdict(s,args,kw,st):
+  from . import symcoll
+  if len(args)!=1 or not (isinstance(args[0],Cls) and args[0].name=='set'): raise Unsupported("defaultdict with a factory other than set")
+  st2=st.fork(); r=st2.alloc('dict'); st2.heap[(r.id,'dom')]=symcoll.EMPTY; st2.heap[(r.id,'val')]=z3.K(symcoll.Obj,symcoll.EMPTY)
+  st2.heap[(r.id,'key')]=symcoll.ObjK(); st2.heap[(r.id,'vt')]=symcoll.SetOf(symcoll.ObjK()); st2.heap[(r.id,'default')]='set'
+  yield st2,r
 def _bi_listctor(s,args,kw,st):
   if not args: yield st,st.alloc('list',{'items':()}); return
   it=s.concrete_items(args[0],st)
+  if it is None and (_setlike(args[0],st) or type(args[0]).__name__ in('DictSlot','SetV')):
+    # list(<set>): a duplicate-free list in arbitrary order = the element-set abstraction of lists
+    from . import symcoll
+    arr,et=symcoll.setval(args[0],st); st2=st.fork(); yield st2,symcoll.new_setlist(st2,arr,et); return
   if it is None: raise Unsupported("list() of symbolic collection")
   yield st,st.alloc('list',{'items':tuple(it)})
 
@@ -1503,7 +1533,7 @@ def _bi_pq(s,args,kw,st):
   # a sound over-approximation for order-independent postconditions); put(x) carries the obligation that x is not yet queued
   from . import symcoll
   st2=st.fork(); yield st2,symcoll.new_setlist(st2,None,symcoll.PairOf(IntT(),IntT()))
-BUILTIN_CLS={'PriorityQueue':_bi_pq,'set':_bi_setctor,'slice':_bi_slice,'tuple':_bi_tuple,'list':_bi_listctor,'int':_bi_intcls,'bool':_bi_boolcls,'object':None,'str':None}
+BUILTIN_CLS={'PriorityQueue':_bi_pq,'defaultdict':_bi_defaultdict,'set':_bi_setctor,'slice':_bi_slice,'tuple':_bi_tuple,'list':_bi_listctor,'int':_bi_intcls,'bool':_bi_boolcls,'object':None,'str':None}
 
 # ------------------------------------------------------------------------------------------------ spec functions (contract language)
 def _sf_pow2(s,args,st): return I(st.th.pow2(as_int(args[0])))
